@@ -72,5 +72,6 @@ func (c RawConfiguration) QuorumCall(ctx context.Context, d QuorumCallData) (res
 			vEmit("CallEnd", 0, md.MessageID, "out", "incomplete", "nerr", len(errs), "nrep", len(replies))
 			return resp, QuorumCallError{cause: Incomplete, errors: errs, replies: len(replies)}
 		}
+		vEmit("CallLoop", 0, md.MessageID)
 	}
 }
